@@ -77,6 +77,10 @@ func (w *World) Block(id int) []byte {
 	if len(w.first) >= 256 {
 		panic("absx: more than 256 distinct blocks in one world (driver bug: wrap the block counter)")
 	}
+	// ... and at the very end, where a text value is followed by its CR LF terminator
+	if n >= 2 && w.rng.Intn(3) == 0 {
+		b[n-1] = []byte{'\n', '\r', '\n', ' '}[w.rng.Intn(4)]
+	}
 	for {
 		f := byte(w.rng.Intn(256))
 		if _, used := w.first[f]; !used {
